@@ -65,6 +65,13 @@ def structures(tier):
                 cuts.add(c)
     for c in sorted(cuts):
         sts.append({'kind': 'traces', 'cut': c})
+    # default options (colour on) on a stream in which a process is renamed between two traces
+    nr = 288 + 32 + 2 + 64 * 7
+    for i in range(8):
+        for d in (0, 13):
+            c = base + 64 * i + d
+            if c <= nr:
+                sts.append({'kind': 'rename', 'cut': c})
     for c in (0, 1, 2, 5):
         sts.append({'kind': 'count', 'count': c, 'cut': nt})
         sts.append({'kind': 'count', 'count': c, 'cut': base + 64 * 3 + 10})
@@ -124,6 +131,8 @@ def run(ctx, st):
             ctx.check(L + '/prefix', _ev_eq(part[i], full[i]), 'item %d differs' % i)
         ctx.reach()
         return
+    if kind == 'rename':
+        return run_rename(ctx, st)
     # trace level: concrete skeleton, symbolic words
     recs = _skeleton(ctx)
     data = K.v2_file([(0x1d3, 7, b'procA')], 2, recs)
@@ -173,6 +182,48 @@ def run(ctx, st):
     for i in range(min(len(got), len(allp))):
         same = sweep.pieces_equal(ctx.template(got[i]), ctx.template(allp[i])) if ctx.symbolic else got[i] == allp[i]
         ctx.check('C06/count/same-lines', same)
+    ctx.reach()
+
+
+ANSI = __import__('re').compile(r'\x1b\[[0-9;]*m')
+
+
+def run_rename(ctx, st):
+    """formatted traces with the default options (colour on): lines already reported never change when more of the dump
+    is read, even when later records rename the process"""
+    by_id, by_name = sweep.codes()
+    gp, ex_d, ex_s = by_name['BSC_getpid'], by_name['TRACE_DATA_EXEC'], by_name['TRACE_STRING_EXEC']
+    T = 0x1d3
+    recs = [K.pack_rec(1001, [0, 0, 0, 0], T, gp | 1), K.pack_rec(1002, [0, ctx.int('ret0'), 0, 0], T, gp | 2),
+            K.pack_rec(1003, [7, 0, 0, 0], T, ex_d), K.pack_rec_data(1004, b'newimage' + bytes(24), T, ex_s),
+            K.pack_rec(1005, [0, 0, 0, 0], T, gp | 1), K.pack_rec(1006, [0, ctx.int('ret1'), 0, 0], T, gp | 2),
+            K.pack_rec(1007, [0, 0, 0, 0], T, gp | 1)]
+    data = K.v2_file([(T, 7, b'xpcproxy')], 2, recs)
+
+    def lines(d, color):
+        from pykdebugparser.pykdebugparser import PyKdebugParser
+        p = PyKdebugParser()
+        p.color = color
+        if ctx.symbolic:
+            p.threads_pids, p.pids_names = SymMap(), SymMap()
+        out, err = [], None
+        try:
+            for ln in p.formatted_traces(make_stream(d)):
+                out.append(ANSI.sub('', ln))
+        except Budget:
+            raise
+        except Exception as e:      # noqa
+            err = e
+        return out, err
+    for color in (True, False):
+        full, ferr = lines(data, color)
+        part, perr = lines(_cut(data, st['cut']), color)
+        L = 'C06/rename/colour-%s' % ('on' if color else 'off')
+        ctx.check(L + '/full-file-parses', ferr is None, repr(ferr))
+        ctx.check(L + '/prefix-length', len(part) <= len(full), '%d vs %d lines' % (len(part), len(full)))
+        for i in range(min(len(part), len(full))):
+            same = sweep.pieces_equal(ctx.template(part[i]), ctx.template(full[i])) if ctx.symbolic else part[i] == full[i]
+            ctx.check(L + '/prefix', same, 'line %d of the cut dump differs from the complete dump\'s' % i)
     ctx.reach()
 
 
